@@ -10,7 +10,29 @@ SMOL = "src/actor/spawner/smol_spawner.rs"
 TOK = "src/actor/spawner/tokio_spawner.rs"
 AH = "src/actor/spawner/actor_handle.rs"
 CH = "src/channel.rs"
+CALLER = "src/addr/caller.rs"
+SENDER = "src/addr/sender.rs"
+WSENDER = "src/addr/weak_sender.rs"
 MUTANTS = [
+ {"name": "h_caller_drops_force_closure", "why": "the C15 defect: the call closure no longer holds the forcing closure", "expect": {"props": ["C15"], "obligation": "caller.new-owns-both-submit-closures"},
+  "edits": [(CALLER, "                // a caller is a strong handle: it keeps both halves of the channel alive\n                let _force_tx = &force_tx;\n", "")]},
+ {"name": "h_sender_upgrade_closure_holds_strong", "why": "the upgrade closure of a Sender (copied into every WeakSender) holds a strong Arc: a WeakSender keeps the actor alive", "expect": {"props": ["C05"], "obligation": "sender.downgrade-is-weak"},
+  "edits": [(SENDER, "        let upgrade = Box::new(move || {\n            weak_tx", "        let keep_alive = Arc::clone(&tx);\n        let upgrade = Box::new(move || {\n            let _keep = &keep_alive;\n            weak_tx")]},
+ {"name": "h_weaksender_from_weak_tx_other_id", "why": "a WeakSender made from the context upgrades to a Sender with a fresh context id: broker subscriptions are keyed by the wrong id", "expect": {"props": ["C15"], "obligation": "weaksender.upgrade-closure-rebuilds-a-full-sender-for-the-same-actor"},
+  "edits": [(WSENDER, "                .map(|(tx, force_tx)| Sender::new(tx, force_tx, id))\n        });\n\n        WeakSender { upgrade, id }", "                .map(|(tx, force_tx)| Sender::new(tx, force_tx, ContextID::default()))\n        });\n\n        WeakSender { upgrade, id }")]},
+ {"name": "h_sender_send_uses_force_path", "why": "Sender::send goes through the forcing closure: no backpressure through a Sender", "expect": {"props": ["C12"], "obligation": "sender.send-closure-submits-through-the-waiting-closure"},
+  "edits": [(SENDER, """        let send_fn = Box::new(move |msg| {
+            tx.send(Payload::task(move |actor, ctx| {
+                Box::pin(Handler::handle(&mut *actor, ctx, msg))
+            }))
+        });""", """        let force_tx2 = Arc::clone(&force_tx);
+        let send_fn = Box::new(move |msg| -> Pin<Box<dyn Future<Output = Result<()>> + Send>> {
+            let _tx = &tx;
+            let r = force_tx2.send(Payload::task(move |actor, ctx| {
+                Box::pin(Handler::handle(&mut *actor, ctx, msg))
+            }));
+            Box::pin(async move { r })
+        });""")]},
  {"name": "chan_force_path_second_queue", "why": "the force path of a bounded mailbox gets its own queue: call/ping/stop overtake or never reach the actor", "expect": {"props": ["C01"], "obligation": "chan.bounded-one-queue-for-both-paths-and-receiver"},
   "edits": [(CH, """        let (tx, mut rx) = futures::channel::mpsc::channel::<Payload<A>>(buffer);
         let tx2 = tx.clone();""", """        let (tx2, mut rx) = futures::channel::mpsc::channel::<Payload<A>>(buffer);
